@@ -27,66 +27,44 @@
 typedef unsigned __CPROVER_bitvector[256] verif_bv256;
 typedef unsigned __CPROVER_bitvector[512] verif_bv512;
 
-verif_bv256 __CPROVER_uninterpreted_blake3_cip(uint64_t, uint64_t, uint64_t, uint64_t,             /* cv */
-                                               uint64_t, uint64_t, uint64_t, uint64_t, uint64_t,
-                                               uint64_t, uint64_t, uint64_t,                        /* block */
-                                               uint8_t, uint64_t, uint8_t);
-verif_bv512 __CPROVER_uninterpreted_blake3_xof(uint64_t, uint64_t, uint64_t, uint64_t,
-                                               uint64_t, uint64_t, uint64_t, uint64_t, uint64_t,
-                                               uint64_t, uint64_t, uint64_t,
-                                               uint8_t, uint64_t, uint8_t);
-verif_bv256 __CPROVER_uninterpreted_blake3_row(uint64_t, uint64_t, uint64_t, uint64_t, uint64_t, uint64_t, uint64_t, uint64_t, uint64_t, uint64_t, uint64_t, uint64_t, uint64_t, uint64_t, uint64_t, uint64_t, uint64_t, uint64_t, uint64_t, uint64_t, uint64_t, uint64_t, uint64_t, uint64_t, uint64_t, uint64_t, uint64_t, uint64_t, uint64_t, uint64_t, uint64_t, uint64_t, uint64_t, uint64_t, uint64_t, uint64_t, uint64_t, uint64_t, uint64_t, uint64_t, uint64_t, uint64_t, uint64_t, uint64_t, uint64_t, uint64_t, uint64_t, uint64_t, uint64_t, uint64_t, uint64_t, uint64_t, uint64_t, uint64_t, uint64_t, uint64_t, uint64_t, uint64_t, uint64_t, uint64_t, uint64_t, uint64_t, uint64_t, uint64_t, uint64_t, uint64_t, uint64_t, uint64_t, uint64_t, uint64_t, uint64_t, uint64_t, uint64_t, uint64_t, uint64_t, uint64_t, uint64_t, uint64_t, uint64_t, uint64_t, uint64_t, uint64_t, uint64_t, uint64_t, uint64_t, uint64_t, uint64_t, uint64_t, uint64_t, uint64_t, uint64_t, uint64_t, uint64_t, uint64_t, uint64_t, uint64_t, uint64_t, uint64_t, uint64_t, uint64_t, uint64_t, uint64_t, uint64_t, uint64_t, uint64_t, uint64_t, uint64_t, uint64_t, uint64_t, uint64_t, uint64_t, uint64_t, uint64_t, uint64_t, uint64_t, uint64_t, uint64_t, uint64_t, uint64_t, uint64_t, uint64_t, uint64_t, uint64_t, uint64_t, uint64_t, uint64_t, uint64_t, uint64_t,
-                                               uint64_t, uint64_t, uint64_t, uint64_t,             /* key */
-                                               uint64_t, uint8_t, uint8_t, uint8_t, size_t);
+verif_bv256 __CPROVER_uninterpreted_blake3_cip(verif_bv256 cv, verif_bv512 block, uint8_t block_len,
+                                               uint64_t counter, uint8_t flags);
+verif_bv512 __CPROVER_uninterpreted_blake3_xof(verif_bv256 cv, verif_bv512 block, uint8_t block_len,
+                                               uint64_t counter, uint8_t flags);
+verif_bv256 __CPROVER_uninterpreted_blake3_row(
+    verif_bv512, verif_bv512, verif_bv512, verif_bv512, verif_bv512, verif_bv512, verif_bv512, verif_bv512,
+    verif_bv512, verif_bv512, verif_bv512, verif_bv512, verif_bv512, verif_bv512, verif_bv512, verif_bv512,
+    verif_bv256 key, uint64_t counter, uint8_t flags, uint8_t flags_start, uint8_t flags_end, size_t blocks);
 
-/* little-endian 64-bit word w of a byte array / of an array of 32-bit words */
-#define VW64(p, w)                                                                        \
-  ((uint64_t)(p)[8 * (w) + 0] | (uint64_t)(p)[8 * (w) + 1] << 8 | (uint64_t)(p)[8 * (w) + 2] << 16 |  \
-   (uint64_t)(p)[8 * (w) + 3] << 24 | (uint64_t)(p)[8 * (w) + 4] << 32 |                  \
-   (uint64_t)(p)[8 * (w) + 5] << 40 | (uint64_t)(p)[8 * (w) + 6] << 48 | (uint64_t)(p)[8 * (w) + 7] << 56)
-#define VC64(c, w) ((uint64_t)(c)[2 * (w)] | (uint64_t)(c)[2 * (w) + 1] << 32)
-#define VC64_OLD(c, w)                                                                    \
-  ((uint64_t)__CPROVER_old((c)[2 * (w)]) | (uint64_t)__CPROVER_old((c)[2 * (w) + 1]) << 32)
-#define VBLK(b) VW64(b, 0), VW64(b, 1), VW64(b, 2), VW64(b, 3), VW64(b, 4), VW64(b, 5), VW64(b, 6), VW64(b, 7)
-#define VCV(c) VC64(c, 0), VC64(c, 1), VC64(c, 2), VC64(c, 3)
-#define VCV_OLD(c) VC64_OLD(c, 0), VC64_OLD(c, 1), VC64_OLD(c, 2), VC64_OLD(c, 3)
-/* a CV given as 32 little-endian bytes (cv_stack entries, key bytes) */
-#define VCVB(b) VW64(b, 0), VW64(b, 1), VW64(b, 2), VW64(b, 3)
+/* 32 / 64 bytes at p as ONE little-endian bit vector (x86-64: the in-memory order of the cv words
+ * and of the bytes stored by store32 / store_cv_words): a single read instead of 32 / 64 */
+#define V256(p) (*(const verif_bv256 *)(p))
+#define V512(p) (*(const verif_bv512 *)(p))
+/* two 32-byte CVs l, r as the 64-byte block of a parent node */
+#define V512_PAIR(l, r) ((verif_bv512)V256(l) | ((verif_bv512)V256(r) << 256))
 
 #define VERIF_UF_CIP(cv, blk, bl, ctr, fl)                                                \
-  __CPROVER_uninterpreted_blake3_cip(VCV(cv), VBLK(blk), (uint8_t)(bl), (uint64_t)(ctr), (uint8_t)(fl))
+  __CPROVER_uninterpreted_blake3_cip(V256(cv), V512(blk), (uint8_t)(bl), (uint64_t)(ctr), (uint8_t)(fl))
 #define VERIF_UF_CIP_OLDCV(cv, blk, bl, ctr, fl)                                          \
-  __CPROVER_uninterpreted_blake3_cip(VCV_OLD(cv), VBLK(blk), (uint8_t)(bl), (uint64_t)(ctr), (uint8_t)(fl))
+  __CPROVER_uninterpreted_blake3_cip(__CPROVER_old(V256(cv)), V512(blk), (uint8_t)(bl), (uint64_t)(ctr), (uint8_t)(fl))
 #define VERIF_UF_XOF(cv, blk, bl, ctr, fl)                                                \
-  __CPROVER_uninterpreted_blake3_xof(VCV(cv), VBLK(blk), (uint8_t)(bl), (uint64_t)(ctr), (uint8_t)(fl))
-/* a parent node: block = two 32-byte CVs l, r (byte pointers) */
+  __CPROVER_uninterpreted_blake3_xof(V256(cv), V512(blk), (uint8_t)(bl), (uint64_t)(ctr), (uint8_t)(fl))
+/* a parent node: block = two 32-byte CVs l, r (byte pointers), block_len 64, counter 0 */
 #define VERIF_UF_CIP_PARENT(key, l, r, fl)                                                \
-  __CPROVER_uninterpreted_blake3_cip(VCV(key), VCVB(l), VCVB(r), (uint8_t)64, (uint64_t)0, (uint8_t)(fl))
-#define VERIF_UF_XOF_PARENT(key, l, r, ctr, fl)                                           \
-  __CPROVER_uninterpreted_blake3_xof(VCV(key), VCVB(l), VCVB(r), (uint8_t)64, (uint64_t)(ctr), (uint8_t)(fl))
+  __CPROVER_uninterpreted_blake3_cip(V256(key), V512_PAIR(l, r), (uint8_t)64, (uint64_t)0, (uint8_t)(fl))
 
-/* row word w (0..127) of a hash_many input of 64*blocks bytes, zero beyond the row */
-#define VROWW(p, blocks, w) (((size_t)(8 * (w)) < 64 * (size_t)(blocks)) ? VW64(p, w) : (uint64_t)0)
-#define VROW(p, blocks) VROWW(p, blocks, 0), VROWW(p, blocks, 1), VROWW(p, blocks, 2), VROWW(p, blocks, 3), VROWW(p, blocks, 4), VROWW(p, blocks, 5), VROWW(p, blocks, 6), VROWW(p, blocks, 7), VROWW(p, blocks, 8), VROWW(p, blocks, 9), VROWW(p, blocks, 10), VROWW(p, blocks, 11), VROWW(p, blocks, 12), VROWW(p, blocks, 13), VROWW(p, blocks, 14), VROWW(p, blocks, 15), VROWW(p, blocks, 16), VROWW(p, blocks, 17), VROWW(p, blocks, 18), VROWW(p, blocks, 19), VROWW(p, blocks, 20), VROWW(p, blocks, 21), VROWW(p, blocks, 22), VROWW(p, blocks, 23), VROWW(p, blocks, 24), VROWW(p, blocks, 25), VROWW(p, blocks, 26), VROWW(p, blocks, 27), VROWW(p, blocks, 28), VROWW(p, blocks, 29), VROWW(p, blocks, 30), VROWW(p, blocks, 31), VROWW(p, blocks, 32), VROWW(p, blocks, 33), VROWW(p, blocks, 34), VROWW(p, blocks, 35), VROWW(p, blocks, 36), VROWW(p, blocks, 37), VROWW(p, blocks, 38), VROWW(p, blocks, 39), VROWW(p, blocks, 40), VROWW(p, blocks, 41), VROWW(p, blocks, 42), VROWW(p, blocks, 43), VROWW(p, blocks, 44), VROWW(p, blocks, 45), VROWW(p, blocks, 46), VROWW(p, blocks, 47), VROWW(p, blocks, 48), VROWW(p, blocks, 49), VROWW(p, blocks, 50), VROWW(p, blocks, 51), VROWW(p, blocks, 52), VROWW(p, blocks, 53), VROWW(p, blocks, 54), VROWW(p, blocks, 55), VROWW(p, blocks, 56), VROWW(p, blocks, 57), VROWW(p, blocks, 58), VROWW(p, blocks, 59), VROWW(p, blocks, 60), VROWW(p, blocks, 61), VROWW(p, blocks, 62), VROWW(p, blocks, 63), VROWW(p, blocks, 64), VROWW(p, blocks, 65), VROWW(p, blocks, 66), VROWW(p, blocks, 67), VROWW(p, blocks, 68), VROWW(p, blocks, 69), VROWW(p, blocks, 70), VROWW(p, blocks, 71), VROWW(p, blocks, 72), VROWW(p, blocks, 73), VROWW(p, blocks, 74), VROWW(p, blocks, 75), VROWW(p, blocks, 76), VROWW(p, blocks, 77), VROWW(p, blocks, 78), VROWW(p, blocks, 79), VROWW(p, blocks, 80), VROWW(p, blocks, 81), VROWW(p, blocks, 82), VROWW(p, blocks, 83), VROWW(p, blocks, 84), VROWW(p, blocks, 85), VROWW(p, blocks, 86), VROWW(p, blocks, 87), VROWW(p, blocks, 88), VROWW(p, blocks, 89), VROWW(p, blocks, 90), VROWW(p, blocks, 91), VROWW(p, blocks, 92), VROWW(p, blocks, 93), VROWW(p, blocks, 94), VROWW(p, blocks, 95), VROWW(p, blocks, 96), VROWW(p, blocks, 97), VROWW(p, blocks, 98), VROWW(p, blocks, 99), VROWW(p, blocks, 100), VROWW(p, blocks, 101), VROWW(p, blocks, 102), VROWW(p, blocks, 103), VROWW(p, blocks, 104), VROWW(p, blocks, 105), VROWW(p, blocks, 106), VROWW(p, blocks, 107), VROWW(p, blocks, 108), VROWW(p, blocks, 109), VROWW(p, blocks, 110), VROWW(p, blocks, 111), VROWW(p, blocks, 112), VROWW(p, blocks, 113), VROWW(p, blocks, 114), VROWW(p, blocks, 115), VROWW(p, blocks, 116), VROWW(p, blocks, 117), VROWW(p, blocks, 118), VROWW(p, blocks, 119), VROWW(p, blocks, 120), VROWW(p, blocks, 121), VROWW(p, blocks, 122), VROWW(p, blocks, 123), VROWW(p, blocks, 124), VROWW(p, blocks, 125), VROWW(p, blocks, 126), VROWW(p, blocks, 127)
+/* block b (0..15) of a hash_many input of 64*blocks bytes, zero beyond the row */
+#define VROWB(p, blocks, b) (((size_t)(b) < (size_t)(blocks)) ? V512((p) + 64 * (b)) : (verif_bv512)0)
+#define VROW(p, n)                                                                        \
+  VROWB(p, n, 0), VROWB(p, n, 1), VROWB(p, n, 2), VROWB(p, n, 3), VROWB(p, n, 4), VROWB(p, n, 5),     \
+  VROWB(p, n, 6), VROWB(p, n, 7), VROWB(p, n, 8), VROWB(p, n, 9), VROWB(p, n, 10), VROWB(p, n, 11),   \
+  VROWB(p, n, 12), VROWB(p, n, 13), VROWB(p, n, 14), VROWB(p, n, 15)
 #define VERIF_UF_ROW(p, blocks, key, ctr, fl, fs, fe)                                     \
-  __CPROVER_uninterpreted_blake3_row(VROW(p, blocks), VCV(key), (uint64_t)(ctr), (uint8_t)(fl), \
+  __CPROVER_uninterpreted_blake3_row(VROW(p, blocks), V256(key), (uint64_t)(ctr), (uint8_t)(fl), \
                                      (uint8_t)(fs), (uint8_t)(fe), (size_t)(blocks))
 
-/* result selectors */
+/* byte j of a UF result */
 #define VBYTE(v, j) ((uint8_t)((v) >> (8 * (size_t)(j))))
-#define VWORD64(v, w) ((uint64_t)((v) >> (64 * (w))))
-/* 8 cv words / 32 bytes / 64 bytes equal to a UF result */
-#define VCVW_IS(c, v)                                                                     \
-  (VC64(c, 0) == VWORD64(v, 0) && VC64(c, 1) == VWORD64(v, 1) && VC64(c, 2) == VWORD64(v, 2) &&   \
-   VC64(c, 3) == VWORD64(v, 3))
-#define VB32_IS(b, v)                                                                     \
-  (VW64(b, 0) == VWORD64(v, 0) && VW64(b, 1) == VWORD64(v, 1) && VW64(b, 2) == VWORD64(v, 2) &&   \
-   VW64(b, 3) == VWORD64(v, 3))
-#define VB64_IS(b, v)                                                                     \
-  (VB32_IS(b, v) && VW64(b, 4) == VWORD64(v, 4) && VW64(b, 5) == VWORD64(v, 5) &&         \
-   VW64(b, 6) == VWORD64(v, 6) && VW64(b, 7) == VWORD64(v, 7))
-#define VB32_EQ(a, b)                                                                     \
-  (VW64(a, 0) == VW64(b, 0) && VW64(a, 1) == VW64(b, 1) && VW64(a, 2) == VW64(b, 2) && VW64(a, 3) == VW64(b, 3))
 
 /* ---- the ghost witness byte --------------------------------------------------------- */
 static const uint8_t *verif_w;
@@ -95,8 +73,13 @@ static const uint8_t *verif_w;
 #define VW_IN(base, n)                                                                    \
   (__CPROVER_same_object(verif_w, (base)) && VPOFF(verif_w) >= VPOFF(base) &&             \
    VPOFF(verif_w) - VPOFF(base) < (size_t)(n))
-/* its index relative to base */
+/* its index relative to base, and the byte itself (read through base: cbmc resolves a dereference
+ * by points-to sets, a nondeterministic pointer has none) */
 #define VW_IDX(base) (VPOFF(verif_w) - VPOFF(base))
+#define VW_AT(base) ((base)[VW_IDX(base)])
+/* proof device for loops: a value the harness computes from the arguments before the call (loop
+ * invariants must not contain function applications, not even uninterpreted ones) */
+static uint8_t verif_expect_byte;
 
 #define VERIF_FN_PROLOGUE()                                                               \
   do {                                                                                    \
